@@ -171,4 +171,31 @@ CLAIMS["C04"] = {
             "integer division reporting 0) was found and repaired.",
 }
 
+CLAIMS["C16"] = {
+    "technique": "parameter dataflow for widths, CFG must-pass-through of the recomposition equality, abstract "
+                 "interpretation of list lengths / offsets of the packer classes as canonical symbolic widths",
+    "text": "Decides that the width parameter of to_bits / check_positive / assert_positive governs the run-time test, the "
+            "number of bits built and the gadget call; that to_bits allocates every bit through the constraining Boolean "
+            "constructor, hints bit i with bit i of the value and passes the recomposition equality on every completing "
+            "path; that from_bits pairs bit i with 2^i; that for each packer len(pack(v)) = bitlen() and unpack consumes "
+            "bitlen() positions from pos (same width expression in bitlen, both pack arms and the unpack slice; PackList "
+            "offsets advance by each child's bitlen; PackRepeat stride = child bitlen); that plain values outside [0,mod) "
+            "are rejected unsuppressibly on pack and secret ones range-checked on unpack.",
+    "note": "The round-trip equality over all values is a value property and is not decided. The assert_positive width "
+            "defect found by R-C16-1 was repaired.",
+}
+CLAIMS["C17"] = {
+    "technique": "reverse call-graph reachability to backend.pubval over kind-aware call edges (who-may-publish), shape of "
+                 "the recursive traversal and converter lambdas, CFG dominance of the kwargs refusal, value-term identity in "
+                 "val()",
+    "text": "Decides that only the publishing API (PubVal, val(), PubValFxp/PubValBool, the @snark wrapper and its traversal) "
+            "reaches backend.pubval - no operator, assertion, gadget, hash or array function does; that for_each_in recurses "
+            "into exactly list/tuple/dict, over the whole container, in order and unfiltered, and sends every leaf through "
+            "the converter; that the wrapper converts int/float/bool arguments, calls the function on the converted "
+            "arguments after refusing kwargs, replaces LinComb/LinCombFxp/LinCombBool results by .val() and returns them; "
+            "that val() allocates one public wire with the same value, constrains it equal and returns the plain value; and "
+            "that the wrapper itself makes no other call.",
+    "note": "Bodies of wrapped functions are client code: what they publish explicitly is allowed by the API.",
+}
+
 NOT_APPLICABLE = {}
